@@ -201,6 +201,13 @@ def run(ctx):
         plain = ''.join(rng.choice(['U-U-U', 'V-V-V', 'C-C-C', 'D-D-D', ' ', ' ', '.', ',', ';', ':', 'word', 'Word', 'and', '\n', 'x', '1', 'XU-U-U', 'U-U-Ux'])
                         for _ in range(rng.randint(1, 14)))
         ecases.append((plain, rng.choice(['displayed', 'inline', 'all', 'd', 'i', 'a'])))
+    # messages that mark more than the context window is wide: a placeholder followed by a long run of white space or a long
+    # capitalised word (the excerpt must still mark the same characters)
+    for _ in range(ctx.scale(60, 1000)):
+        ph = rng.choice(['U-U-U', 'V-V-V', 'C-C-C'])
+        tail = rng.choice([' ' * rng.randint(40, 70) + '\nNext sentence.', ' ' + 'Donau' + 'dampfschifffahrts' * rng.randint(2, 4) + ' follows.',
+                           ' ; ' + 'X' * rng.randint(41, 60), ' ' * 44 + 'End', '\t' * 50])
+        ecases.append((rng.choice(['See ', '', 'Word word word word word word word word word word ']) + ph + tail, rng.choice(['displayed', 'inline', 'all'])))
     eres = ctx.pmap(run_eq, ecases)
     for c, r in zip(ecases, eres):
         ctx.case(('eq',) + c, nontrivial='-' in c[0])
